@@ -517,25 +517,33 @@ func (c *Ctx) constMapUpdates(pkg string, fns []string) map[string]map[string]st
 		if fn == nil {
 			continue
 		}
+		scan := []*ssa.Function{fn}
 		instrsOf(fn, func(in ssa.Instruction) {
-			mu, ok := in.(*ssa.MapUpdate)
-			if !ok {
-				return
-			}
-			k, ok := mu.Key.(*ssa.Const)
-			if !ok || k.Value == nil || k.Value.Kind() != constant.String {
-				return
-			}
-			key := constant.StringVal(k.Value)
-			switch v := mu.Value.(type) {
-			case *ssa.Const:
-				out[name][key] = c.ptName(PConst{v.Value, v.Type()})
-			case *ssa.MakeInterface:
-				out[name][key] = strings.TrimPrefix(types.TypeString(v.X.Type(), shortQual), "engine.")
-			default:
-				out[name][key] = "?"
+			if sc := staticCallee(in); sc != nil && c.isRepoFn(sc) && sc.Pkg == fn.Pkg && sc != fn {
+				scan = append(scan, sc)
 			}
 		})
+		for _, f := range scan {
+			instrsOf(f, func(in ssa.Instruction) {
+				mu, ok := in.(*ssa.MapUpdate)
+				if !ok {
+					return
+				}
+				k, ok := mu.Key.(*ssa.Const)
+				if !ok || k.Value == nil || k.Value.Kind() != constant.String {
+					return
+				}
+				key := constant.StringVal(k.Value)
+				switch v := mu.Value.(type) {
+				case *ssa.Const:
+					out[name][key] = c.ptName(PConst{v.Value, v.Type()})
+				case *ssa.MakeInterface:
+					out[name][key] = strings.TrimPrefix(types.TypeString(v.X.Type(), shortQual), "engine.")
+				default:
+					out[name][key] = "?"
+				}
+			})
+		}
 	}
 	return out
 }
